@@ -114,6 +114,9 @@ type SuccessPath struct {
 	Ret  *ssa.Return
 	Via  *ssa.BasicBlock // predecessor carrying the nil value (phi case), or nil
 	Note string
+	// FromCall: the possibly-nil error is the result of this call (`return helper(...)` or
+	// `err := helper(...); return err`): the guard may have been passed inside the helper.
+	FromCall ssa.CallInstruction
 }
 
 // SuccessFn decides whether a Return can be a "success" return given that control arrives
@@ -215,9 +218,117 @@ func successPathsOf(v ssa.Value, r *ssa.Return, b *ssa.BasicBlock, reachable map
 		}
 	}
 	if mayBeNilValue(v, b, memo, 0, map[ssa.Value]bool{}) {
-		return []SuccessPath{{Ret: r}}
+		sp := SuccessPath{Ret: r}
+		if c, _ := CallOf(ov); c != nil {
+			sp.FromCall = c
+		}
+		return []SuccessPath{sp}
 	}
 	return nil
+}
+
+// BoolTrueSuccess: success = the boolean result #idx may be true.
+func BoolTrueSuccess(idx int) SuccessFn {
+	var may func(v ssa.Value, seen map[ssa.Value]bool) bool
+	may = func(v ssa.Value, seen map[ssa.Value]bool) bool {
+		if seen[v] {
+			return false
+		}
+		seen[v] = true
+		switch x := v.(type) {
+		case *ssa.Const:
+			return x.Value != nil && x.Value.String() == "true"
+		case *ssa.Phi:
+			for _, e := range x.Edges {
+				if may(e, seen) {
+					return true
+				}
+			}
+			return false
+		}
+		return true
+	}
+	return func(r *ssa.Return, reachable map[*ssa.BasicBlock]bool, removed map[Edge]bool) []SuccessPath {
+		if idx >= len(r.Results) || !reachable[r.Block()] {
+			return nil
+		}
+		v := r.Results[idx]
+		if phi, ok := v.(*ssa.Phi); ok && phi.Block() == r.Block() {
+			var out []SuccessPath
+			for i, e := range phi.Edges {
+				pred := phi.Block().Preds[i]
+				if !reachable[pred] || removed[Edge{pred, phi.Block()}] {
+					continue
+				}
+				if may(e, map[ssa.Value]bool{}) {
+					out = append(out, SuccessPath{Ret: r, Via: pred})
+				}
+			}
+			return out
+		}
+		if may(v, map[ssa.Value]bool{}) {
+			return []SuccessPath{{Ret: r}}
+		}
+		return nil
+	}
+}
+
+// helperImplies: every success exit of the repository helper h (nil error, or true when the
+// helper returns a bool) passes guard g inside h; memoised per (helper, guard).
+var helperMemo = map[string]int{} // 0 unknown, 1 in progress, 2 yes, 3 no
+
+func helperImplies(h *ssa.Function, g Guard, boolResult bool) bool {
+	key := fmt.Sprintf("%p|%s|%v|%p", h, g.Name, boolResult, g.Match)
+	switch helperMemo[key] {
+	case 1, 3:
+		return false
+	case 2:
+		return true
+	}
+	helperMemo[key] = 1
+	var succ SuccessFn
+	if boolResult {
+		succ = BoolTrueSuccess(0)
+	} else {
+		succ = ErrNilSuccess(h, ErrIndex(h), nil)
+	}
+	r := Gate(h, g, succ)
+	ok := len(r.Sites)+r.TailSites > 0 && len(r.Escapes) == 0
+	if ok {
+		helperMemo[key] = 2
+	} else {
+		helperMemo[key] = 3
+	}
+	return ok
+}
+
+// helperSite: the If tests the result of a call to a repository helper whose success
+// implies the guard; returns which edge is the passing one.
+func helperSite(i *ssa.If, g Guard) (passOnTrue bool, ok bool) {
+	if v, trueMeansNil, isNil := NilCheck(i.Cond); isNil {
+		if c, idx := CallOf(Origin(v)); c != nil {
+			if cc, isCall := c.(*ssa.Call); isCall {
+				if h := Followable(cc, nil); h != nil && idx == ErrIndex(h) && helperImplies(h, g, false) {
+					return trueMeansNil, true
+				}
+			}
+		}
+		return false, false
+	}
+	v, neg := BoolCond(i.Cond)
+	if c, idx := CallOf(Origin(v)); c != nil && idx <= 0 {
+		if cc, isCall := c.(*ssa.Call); isCall {
+			if h := Followable(cc, nil); h != nil {
+				res := h.Signature.Results()
+				if res.Len() >= 1 {
+					if b, isB := res.At(0).Type().Underlying().(*types.Basic); isB && b.Kind() == types.Bool && helperImplies(h, g, true) {
+						return !neg, true
+					}
+				}
+			}
+		}
+	}
+	return false, false
 }
 
 // GateResult is the outcome of one Gate evaluation.
@@ -235,6 +346,9 @@ func Gate(fn *ssa.Function, g Guard, success SuccessFn) GateResult {
 	for _, i := range Ifs(fn) {
 		passOnTrue, ok := g.Match(i)
 		if !ok {
+			passOnTrue, ok = helperSite(i, g)
+		}
+		if !ok {
 			continue
 		}
 		res.Sites = append(res.Sites, i)
@@ -249,7 +363,18 @@ func Gate(fn *ssa.Function, g Guard, success SuccessFn) GateResult {
 	}
 	reach := Reachable(fn, removed)
 	for _, r := range Returns(fn) {
-		res.Escapes = append(res.Escapes, success(r, reach, removed)...)
+		for _, sp := range success(r, reach, removed) {
+			// `return helper(...)`: the guard may be passed inside the helper
+			if sp.FromCall != nil {
+				if cc, isCall := sp.FromCall.(*ssa.Call); isCall {
+					if h := Followable(cc, nil); h != nil && helperImplies(h, g, false) {
+						res.TailSites++
+						continue
+					}
+				}
+			}
+			res.Escapes = append(res.Escapes, sp)
+		}
 	}
 	return res
 }
